@@ -37,6 +37,43 @@ def sweep(ctx, n, depth):
     return out
 
 
+def count_sweep(ctx, n, depth, why):
+    """Count-only sweep of all 2^32 raw words (16 processes): decides bounds too large for a histogram by the necessary
+    condition 'accepted count is a multiple of n and more than half'."""
+    import json
+    drv = ctx.build_harness()
+    shards = vlib.NCPU
+    step = M // shards
+    procs = [subprocess.Popen([drv, "sweep", "-n", str(n), "-lo", str(k * step), "-hi", str(M if k == shards - 1 else (k + 1) * step), "-depth", str(depth),
+                               "-countonly", "-hist", os.devnull], cwd=ctx.scratch, env=ctx.env, stdout=subprocess.PIPE, stderr=subprocess.PIPE, text=True)
+             for k in range(shards)]
+    acc = rej = oor = 0
+    for p in procs:
+        out, err = p.communicate(timeout=3000)
+        if p.returncode == 4:
+            return True
+        if p.returncode != 0:
+            raise Undecided("count sweep n=%d failed: %s" % (n, err[-300:]))
+        j = json.loads([l for l in out.strip().split("\n") if l.startswith("{")][-1])
+        acc, rej, oor = acc + j["accepted"], rej + j["rejected"], oor + j["outOfRange"]
+    f = ctx.path("sweepcount-%d-%d.ndjson" % (n, depth))
+    ctx.drv("sweepcount", "-out", f, "-n", n, "-accepted", acc, "-rejected", rej, "-outofrange", oor, "-depth", depth)
+    ctx.evaluations += M
+    v = ctx.validate("DrawTrace", f, tag="sweepcount-%d-%d" % (n, depth))
+    ctx.cover.setdefault("count_sweeps", []).append(dict(n=n, depth=depth, accepted=acc, rejected=rej, reason=why))
+    ok = True
+    for b in v["bad"]:
+        if b["why"].startswith("prop:"):
+            ok = False
+            ctx.violation("bound n=%d, raw word at depth %d: %s (accepted %d of 2^32 raw values, %d mod n = %d)" % (n, depth, b["why"][5:], acc, acc, acc % n),
+                          dict(kind="sweepcount", n=n, depth=depth, accepted=acc, rejected=rej))
+        elif b["why"].startswith("shape:"):
+            ctx.drift("count sweep n=%d depth=%d: %s" % (n, depth, b["why"][6:]))
+        else:
+            raise Undecided("count sweep n=%d: %s" % (n, b["why"]))
+    return ok
+
+
 def decide_by_sweep(ctx, n, depth, why):
     f = sweep(ctx, n, depth)
     if f is None:
